@@ -28,9 +28,13 @@ def roles(ctx):
         if "Waker" in f["ty"]:
             R["waker_f"] = f["name"]
         else:
-            R["state_f"] = f["name"]
-            R["state_ty"] = f["ty"].split("<")[0]
-    st = ctx.facts.adts.get(R["state_ty"])
+            # the state is the field whose type is a crate-local enum (other fields - debug-only counters, labels - are not it)
+            a_ = ctx.facts.adts.get(f["ty"].split("<")[0])
+            if (a_ and a_.get("local") and a_["kind"] == "enum") or "state_f" not in R:
+                if not (R.get("state_ty") and (ctx.facts.adts.get(R["state_ty"]) or {}).get("kind") == "enum" and not (a_ and a_["kind"] == "enum")):
+                    R["state_f"] = f["name"]
+                    R["state_ty"] = f["ty"].split("<")[0]
+    st = ctx.facts.adts.get(R.get("state_ty"))
     if not st or st["kind"] != "enum":
         raise FailClosed("shared state enum not found")
     for v in st["variants"]:
